@@ -77,6 +77,7 @@ class _Run:
         self.nontrivial = False
         self.excluded = []
         self.leak_trigger = False
+        self.stale_parent = set()  # children whose in-memory parent was deleted and which have not been expired since
         self._mark_flushed()
 
     # ------------------------------------------------------------ model
@@ -235,7 +236,7 @@ class _Run:
             kind, k = ident
             if self.alive(ident):
                 if self.leak_trigger:
-                    raise Violation("C48/weak-ref/kept-alive-through-modified-then-deleted-object",
+                    raise Violation("C48/weak-ref/kept-alive-through-deleted-object-strong-ref",
                                     f"{where}: {kind}#{k} is unmodified and unreferenced, but stays alive after gc.collect(): an object that had pending changes when it was "
                                     f"deleted keeps InstanceState._strong_obj after the flush (expire_on_commit={self.case['cfg']['eoc']}) and is reachable from the "
                                     f"identity map through the parent tracking of its former children")
@@ -338,6 +339,7 @@ class _Run:
                 if row[0] == k:
                     row[0] = None
                     self.touched.add(("child", ck))
+                    self.stale_parent.add(ck)  # in memory the child keeps pointing at the deleted parent until it is expired
             self.links = {l for l in self.links if l[0] != k}
         self.classes.add("delete")
 
@@ -348,6 +350,13 @@ class _Run:
         ck = cids[cidx % len(cids)]
         pk = None if pidx is None or not pids else pids[pidx % len(pids)]
         old = self.child[ck][0]
+        if ck in self.stale_parent:
+            if not self.case.get("pinned"):
+                # same known finding from the other side: the backref event lands on the already deleted parent, which becomes
+                # strongly self-referenced again and is never released while it stays attached (expire_on_commit=False)
+                self.excluded.append("relationship change on a child whose in-memory parent was deleted (known finding: strong reference on the deleted object)")
+                return
+            self.leak_trigger = True
         if via_collection and pk is not None:
             p = self.obtain(("parent", pk))
             if "children" not in p.__dict__ and ("parent", pk) not in self.new:
@@ -423,6 +432,8 @@ class _Run:
             self.check_liveness("gc before " + ("commit" if commit else "flush"))
         if commit:
             self.sess.commit()
+            if self.case["cfg"]["eoc"]:
+                self.stale_parent.clear()
         else:
             self.sess.flush()
         self._apply_deletes()
